@@ -42,6 +42,16 @@ CHECKS = {
         design_ref="DESIGN.md section 3, C05",
         note="Triples mixing offset and delta units are outside transitivity / trichotomy by design (offset <-> delta conversion is refused); NaN is "
              "checked relationally in the harness."),
+    "C06": dict(
+        technique="TLA+ spec (Offset, Quantity) model-checked with TLC against the documented offset/delta/log table in both registry modes; every TLC state replayed on real quantities (scalar and ndarray in-place); temperature conversions of the bundled registry validated by TLC through affine maps in fingerprint arithmetic",
+        text="NonMultiplicativeRegistry._convert, the seven _add_sub branches, _mul_div and __pow__ are transcribed in Offset.tla; TLC checks in both modes, "
+             "over a pool of absolute / scaled-absolute / offset / other-scale offset / delta / compound / squared / logarithmic quantities, that the "
+             "operational answers are exactly the documented table (defining affine maps, inverse and path-independent conversions, delta by scale only, "
+             "delta <-> offset refused, offset - offset = delta, offset +- delta = offset, offset + offset refused, products and powers refused or through "
+             "base units, log units on the exact lattice); all states are executed on materialised registries; conversions among all bundled temperature "
+             "units (Fraction magnitudes) are recomputed by Trace_Reg and log units checked against their formula in float.",
+        design_ref="DESIGN.md section 3, C06",
+        note="Logarithms are floating point: tolerance 1e-9; // and % with offset units are outside the documented table and not claimed."),
     "C04": dict(
         technique="TLA+ spec (UnitAlgebra, LinAlg) model-checked with TLC; TLC-generated cases replayed into pint; recorded operations validated by a TLC trace spec",
         text="TLC checks exhaustively (3 names, exponents -2..2 and +-1/2, all pairs, all powers, triples) that the operational model of "
